@@ -656,6 +656,10 @@ func oracleC03(g *Gen, n int) {
 		}
 		uniform(exps)
 	}
+	// the random stream keeps a share of its own however large the fixed sweeps above have grown
+	if n < cases+n/3 {
+		n = cases + n/3
+	}
 	for cases < n {
 		if g.Chance(6) {
 			degenerate()
